@@ -138,10 +138,13 @@ class Gen:
         ev = {"k": "leaf", "out": h, "arr": enc_arr(v), "constant": constant}
         if self.coin(0.3):
             ev["via"] = "Tensor"
+        if v.ndim >= 2 and self.cfg.get("f_order_p") and self.coin(self.cfg["f_order_p"]):
+            ev["order"] = "F"  # a leaf whose memory is Fortran-ordered
+            v = np.asfortranarray(v)
         self.emit(ev)
         const = constant if constant is not None else (v.dtype.kind != "f")
         self.fam_id += 1
-        self.t[h] = G(v.copy(), const, self.epoch, self.fam_id)
+        self.t[h] = G(np.array(v, copy=True, order="K"), const, self.epoch, self.fam_id)
         return h
 
     def arr(self, shape=None, dtype=None, ro=False):
